@@ -13,6 +13,8 @@ CLASS_HOME = {
     'NonlinearBlockGS': 'openmdao/solvers/nonlinear/nonlinear_block_gs.py',
     'Driver': 'openmdao/core/driver.py',
     'PhysicalUnit': 'openmdao/utils/units.py',
+    'FiniteDifference': 'openmdao/approximation_schemes/finite_difference.py',
+    'ComplexStep': 'openmdao/approximation_schemes/complex_step.py',
     'OptionsDictionary': 'openmdao/utils/options_dictionary.py',
     'Autoscaler': 'openmdao/drivers/autoscalers/autoscaler.py',
     'OptimizerVector': 'openmdao/vectors/optimizer_vector.py',
@@ -32,6 +34,7 @@ PROPERTY_MODULES = {
     'C06': ['contracts.c06_units'],
     'C30': ['contracts.c30_cs_safe'],
     'C25': ['contracts.c25_ks'],
+    'C12': ['contracts.c12_approx'],
 }
 
 # modules whose contracts may be used as callee contracts by any property
@@ -61,6 +64,7 @@ PROPERTY_ASSUMPTIONS = {
             'assumed: _iter_get_norm returns NaN or a value >= 0; _single_iteration and _run_apply neither raise nor modify solver control state'],
 }
 GAPS = {
+    'C12': ['truncation error for non-polynomial functions', 'step_calc=rel_element and directional options', 'compute_approx_col_iter generator (save / finally restore of FD mode)', 'colored approximation equals uncolored (C03)', 'ComplexStep: outputs/residuals after a point, nested complex-step fallback to FD', 'approximated totals'],
     'C25': ['KSfunction.compute/derivatives and KSComp.compute/compute_partials: bounded exhaustive tier only', 'exact gradients of jax ks_max/ks_min (jax AD)', 'exp overflow for huge rho*(g-m) is excluded by the shift but floats are treated as reals'],
     'C30': ['derivatives of the jax smooth helpers (jax AD)', 'second-order effects of a finite complex step', 'n-d arrays / axis argument of cs_safe.norm'],
     'C06': ['_find_unit / simplify_unit / SI prefixes: bounded exhaustive tier only (regex + eval are outside the subset)', 'fractional powers in PhysicalUnit.__pow__', 'has_val_mismatch', 'the numeric content of unit_library.ini'],
